@@ -658,6 +658,16 @@ func c19Collapse(bs []refcar.Block, byMultihash bool) []refcar.Block {
 
 func (e *c19Env) filterOnce(inP, outP string, sel c19Selection, flags ...string) c19Res {
 	txt := []byte(strings.Join(sel.lines, "\n") + "\n")
+	switch e.r.Intn(4) {
+	case 0: // the last line is not terminated (printf, strings.Join)
+		if len(sel.lines) > 0 {
+			txt = txt[:len(txt)-1]
+			e.t.Cover("variant:filter-list-without-final-newline")
+		}
+	case 1: // CRLF line ends
+		txt = []byte(strings.Join(sel.lines, "\r\n") + "\r\n")
+		e.t.Cover("variant:filter-list-crlf")
+	}
 	if e.notes == nil {
 		e.notes = map[string]any{}
 	}
